@@ -27,6 +27,7 @@ META = {
 }
 
 INV = ["StatementWins", "CallWins", "PreparedNext", "LevelNext", "DefaultLast", "WinnerIsSet"]
+PROPS = ["Stateless"]
 
 
 class Env:
@@ -144,8 +145,11 @@ class Env:
                 pass
 
 
-def evaluate(env, st):
-    """Build the configuration of one spec state on real objects. Returns (expected, observed) dicts."""
+def evaluate(env, st, again=False):
+    """Build the configuration of one spec state on real objects. Returns (expected, observed) dicts.
+    again=True: the statement object is executed a first time as configured and then a SECOND time under the
+    other profile (profile modes) / after the session defaults changed (legacy mode); the second request is
+    the one observed, and its "level" layer carries the other values."""
     q, CL = env.q, env.CL
     kind, mode = st["kind"], st["mode"]
     sets = {o: frozenset(st["set"][o]) for o in st["set"]}
@@ -190,7 +194,30 @@ def evaluate(env, st):
     if "call" in sets["timeout"]:
         timeout = None if st["callNone"] else 7.0
     ep = "named" if mode == "profile_named" else env.cl.EXEC_PROFILE_DEFAULT
+    legacy_saved = None
+    if again:
+        first = s._create_response_future(query, None, False, None, timeout, execution_profile=ep)
+        first._cancel_timer()
+        if mode == "legacy":
+            legacy_saved = (s.default_consistency_level, s.default_serial_consistency_level, s.default_timeout,
+                            s.row_factory, s.default_fetch_size)
+            s.default_consistency_level = CL.ALL
+            s.default_serial_consistency_level = CL.LOCAL_SERIAL if winner["serial"] == "level" else ser_level
+            s.default_timeout = 99.0
+            s.row_factory = q.dict_factory
+            s.default_fetch_size = 44
+        else:
+            ep = env.cl.EXEC_PROFILE_DEFAULT if ep == "named" else "named"
+            if kind != "batch":
+                legacy_saved = ("fetch", s.default_fetch_size)
+                s.default_fetch_size = 44
     fut = s._create_response_future(query, None, False, None, timeout, execution_profile=ep)
+    if legacy_saved is not None:
+        if legacy_saved[0] == "fetch":
+            s.default_fetch_size = legacy_saved[1]
+        else:
+            (s.default_consistency_level, s.default_serial_consistency_level, s.default_timeout,
+             s.row_factory, s.default_fetch_size) = legacy_saved
     try:
         msg = fut.message
         frame = env.cl.ProtocolHandler.encode_message(msg, 1, 4, None, False)
@@ -225,18 +252,44 @@ def evaluate(env, st):
         exp["fetch"] = exp["fetch_wire"] = env.value("fetch", winner["fetch"], winner["fetch"])
     if mode != "legacy":
         exp["spec"] = 0.125 if winner["spec"] == "level" else "NoSpeculativeExecutionPlan"
+    if again:
+        # the "level" layer (and what was the documented default, since the other profile / the changed session
+        # sets everything) now holds the OTHER values; statement / prepared / call layers are untouched
+        def lvl(o):
+            return winner[o] in ("level", "default")
+        if lvl("timeout"):
+            exp["timeout"] = 99.0
+        if lvl("cl"):
+            exp["cl"] = exp["cl_wire"] = CL.ALL
+        if lvl("serial"):
+            if mode == "legacy":
+                v = CL.LOCAL_SERIAL if winner["serial"] == "level" else None
+            else:
+                v = CL.LOCAL_SERIAL
+            exp["serial"] = exp["serial_wire"] = v
+        if kind != "batch" and lvl("fetch"):
+            exp["fetch"] = exp["fetch_wire"] = 44
+        if mode == "legacy":
+            exp["rowf"] = "dict_factory"
+            # retry policy and load balancer are cluster attributes in legacy mode: unchanged by the second run
+        else:
+            if lvl("retry"):
+                exp["retry"] = "Retry<other>"
+            exp["rowf"] = "dict_factory"
+            exp["lbp"] = "other"
+            exp["spec"] = 0.5
     return exp, obs
 
 
 def compare(env, st):
-    exp, obs = evaluate(env, st)
+    exp, obs = evaluate(env, st, again=(st.get("phase") == "again"))
     diff = {k: {"spec": exp[k], "code": obs.get(k)} for k in exp if exp[k] != obs.get(k)}
     return diff
 
 
 def run(ctx):
     consts = {"TieStmt": ctx.quick, "TiePrepared": False, "TieExtras": ctx.quick}
-    cfg = tlc.write_cfg(os.path.join(ctx.scratch, "opt.cfg"), constants=consts, invariants=INV, deadlock=False)
+    cfg = tlc.write_cfg(os.path.join(ctx.scratch, "opt.cfg"), constants=consts, invariants=INV, properties=PROPS, deadlock=False)
     res, states = tlc.enumerate_states("Options", cfg, ctx.scratch, timeout=3000)
     ctx.add_tlc(res, "exhaustive %s" % consts)
     ctx.note("constants", consts)
@@ -244,7 +297,7 @@ def run(ctx):
         ctx.violation("TLC: %s violated on Options.tla" % res.invariant, replay={"trace": [dict(s) for _, s in res.trace()]},
                       signature="spec:%s" % res.invariant)
         return
-    states = [s for s in states if s["phase"] == "done"]
+    states = [s for s in states if s["phase"] in ("done", "again")]
     # vacuity: the interesting antecedents must occur among the enumerated states
     if not any(s["kind"] == "bound" and s["winner"]["cl"] == "prepared" and "level" in s["set"]["cl"] for s in states) or \
             not any(s["mode"] == "legacy" and s["winner"]["retry"] == "level" for s in states):
@@ -258,15 +311,15 @@ def run(ctx):
             except Exception as ex:      # a mutated driver may raise while resolving options
                 diff = {"_exception": {"spec": "no exception", "code": "%s: %s" % (type(ex).__name__, ex)}}
             n += 1
-            cfgkey = (st["kind"], st["mode"], tuple(sorted((o, tuple(sorted(v))) for o, v in st["set"].items())), st["callNone"])
+            cfgkey = (st["phase"], st["kind"], st["mode"], tuple(sorted((o, tuple(sorted(v))) for o, v in st["set"].items())), st["callNone"])
             if any(st["winner"][o] != "default" for o in st["winner"]):
                 ctx.nontrivial(cfgkey)
             if n % 5000 == 1:
-                ctx.sample({"kind": st["kind"], "mode": st["mode"], "set": st["set"], "callNone": st["callNone"], "winner": st["winner"]})
+                ctx.sample({"phase": st["phase"], "kind": st["kind"], "mode": st["mode"], "set": st["set"], "callNone": st["callNone"], "winner": st["winner"]})
             if diff:
                 opts = sorted(k.replace("_wire", "") for k in diff)
                 ctx.violation("%s statement, %s: %s" % (st["kind"], st["mode"], diff),
-                              replay={"state": st, "diff": diff}, signature="%s:%s:%s" % (st["kind"], st["mode"], ",".join(sorted(set(opts)))))
+                              replay={"state": st, "diff": diff}, signature="%s%s:%s:%s" % ("second-execution:" if st["phase"] == "again" else "", st["kind"], st["mode"], ",".join(sorted(set(opts)))))
         ctx.evaluations = n
         ctx.traces_validated = n
         ctx.note("exhaustive", True)
